@@ -37,6 +37,8 @@ TEMPLATES = {
     "D3": ["J", ["J", ["J"]]],
     "D3b": ["J", ["J", ["J", "J"]]],
     "E": ["J", []],
+    "E2": [[], "J"],
+    "E3": ["J", [], "J"],
     "S2": [["J", "J"]],
 }
 
